@@ -395,7 +395,7 @@ fn scan(src: &Src, s: &mut Suspects) {
         Src::Arr(a) => {
             for w in a.windows(3) {
                 if let (Src::Int(x), Src::Int(y), Src::Name(r)) = (&w[0], &w[1], &w[2]) {
-                    if (0..=9_999_999).contains(x) && (0..=65535).contains(y) && r == "R" {
+                    if (0..=u32::MAX as i64).contains(x) && (0..=65535).contains(y) && r == "R" {
                         s.r_after_ints = true;
                     }
                 }
